@@ -241,6 +241,20 @@ def _base_cfg():
     return copy.deepcopy(_BASE_CFG)
 
 
+# word separators other than U+0020 are word separators too (multi-line templates, tab-separated text, an LLM reply
+# with one word per line, ideographic / line-separator spaces)
+SEPS = [" ", "\n", "\t", " ", "\u3000", "\u2028", " "]
+
+
+def join_mixed(words) -> str:
+    out = []
+    for i, w in enumerate(words):
+        if i:
+            out.append(SEPS[i % len(SEPS)])
+        out.append(w)
+    return "".join(out)
+
+
 class AdapterDouble:
     """an LLM adapter that ignores max_tokens (untrusted backend)"""
     name = "AdapterDouble"
@@ -254,7 +268,7 @@ class AdapterDouble:
         self.calls += 1
         if self.mode == "raise":
             raise RuntimeError("adapter down")
-        text = " ".join(f"t{i}" for i in range(self.ntok))
+        text = join_mixed([f"t{i}" for i in range(self.ntok)])
         if self.mode == "prefixed" and self.prefix:
             text = f"{self.prefix}| {text}".strip()
         if self.mode == "dict":
@@ -445,9 +459,9 @@ def _speak_inputs(inp, k: int, budget: int, caps_tokens: int):
     from clematis.engine.types import Plan, SpeakOp
     tmpl = TEMPLATES[inp["tmpl"]]
     labels = [f"w{i:04d}" for i in range(k)] if inp["tmpl"] in ("default", "noprefix", "unknown") else ["alpha"]
-    retrieved = [{"id": "e1", "score": 0.9, "owner": "any", "text": " ".join(["snip"] * k)}, {"id": "e2", "score": 0.5}]
+    retrieved = [{"id": "e1", "score": 0.9, "owner": "any", "text": join_mixed(["snip"] * k)}, {"id": "e2", "score": 0.5}]
     if inp["tmpl"] == "literal":
-        tmpl = " ".join(["word"] * k)
+        tmpl = join_mixed(["word"] * k)
     db = {"version": "t3-dialog-bundle-v1", "now": "2025-09-19T00:00:00+00:00",
           "agent": {"id": "agentA", "style_prefix": STYLES[inp["style"]], "caps": {"tokens": caps_tokens, "ops": 3}},
           "text": {"input": "hello world", "labels_from_t1": ["fallback"]},
